@@ -39,7 +39,7 @@ type c06ChildOut struct {
 	ValueType  string `json:"value_type"`   // dynamic type of Panic.Value
 	Wraps      int    `json:"wraps"`        // number of reflect.Value layers around the carried value
 	VKind      string `json:"vkind"`        // int | str | err | fault | other: the carried value itself
-	// variant B on ONE interpreter: Eval(defs); Eval("Main()"); Eval("Probe()")
+	// variant B on ONE interpreter, through Interpreter.Eval: Eval(defs); Eval("Main()"); Eval("Probe()")
 	DefsErr string `json:"defs_err"`
 	Stdout2 string `json:"stdout2"`
 	End2    string `json:"end2"`
@@ -133,7 +133,9 @@ type c06EvalRes struct {
 }
 
 // c06Eval evaluates src on i with a timeout; a host panic on the evaluating goroutine is caught.
-func c06Eval(i *interp.Interpreter, src string, timeout time.Duration) (res c06EvalRes, end string, info c06EndInfo) {
+// plain: Interpreter.Eval (only Execute stands between a script panic and the host) instead of
+// EvalWithContext (which recovers once more in its own goroutine).
+func c06Eval(i *interp.Interpreter, src string, timeout time.Duration, plain bool) (res c06EvalRes, end string, info c06EndInfo) {
 	done := make(chan c06EvalRes, 1)
 	crash := make(chan string, 1)
 	go func() {
@@ -142,6 +144,11 @@ func c06Eval(i *interp.Interpreter, src string, timeout time.Duration) (res c06E
 				crash <- fmt.Sprint(p)
 			}
 		}()
+		if plain {
+			v, err := i.Eval(src)
+			done <- c06EvalRes{v, err}
+			return
+		}
 		ctx, cancel := context.WithTimeout(context.Background(), timeout)
 		defer cancel()
 		v, err := i.EvalWithContext(ctx, src)
@@ -168,7 +175,7 @@ func c06RunOne(in c06ChildIn, timeout time.Duration) c06ChildOut {
 			return o
 		}
 		var info c06EndInfo
-		_, o.End, info = c06Eval(i, in.Src, timeout)
+		_, o.End, info = c06Eval(i, in.Src, timeout, false)
 		o.IsPanicErr, o.ValueType, o.Wraps, o.VKind = info.isPanic, info.vtype, info.wraps, info.vkind
 		o.Stdout = stdout.String()
 	}
@@ -179,12 +186,12 @@ func c06RunOne(in c06ChildIn, timeout time.Duration) c06ChildOut {
 	var stdout, stderr bytes.Buffer
 	i := interp.New(interp.Options{Stdout: &stdout, Stderr: &stderr})
 	i.Use(stdlib.Symbols)
-	if r, end, _ := c06Eval(i, in.Defs, timeout); r.err != nil || end != "ok" {
+	if r, end, _ := c06Eval(i, in.Defs, timeout, true); r.err != nil || end != "ok" {
 		o.DefsErr = end
 		return o
 	}
 	var info2 c06EndInfo
-	_, o.End2, info2 = c06Eval(i, "Main()", timeout)
+	_, o.End2, info2 = c06Eval(i, "Main()", timeout, true)
 	o.Stdout2 = stdout.String()
 	if info2.isPanic && (info2.wraps != o.Wraps || info2.vkind != o.VKind) {
 		o.End2 += fmt.Sprintf(" [carried value differs: %d %s]", info2.wraps, info2.vkind)
@@ -193,7 +200,7 @@ func c06RunOne(in c06ChildIn, timeout time.Duration) c06ChildOut {
 		o.Probe = "skipped"
 		return o
 	}
-	r, end, _ := c06Eval(i, "Probe()", timeout)
+	r, end, _ := c06Eval(i, "Probe()", timeout, true)
 	switch {
 	case end != "ok":
 		o.Probe = end
